@@ -224,4 +224,20 @@ def judgeReadLT : P Verdict := do
       pure { prop := p, corr := c, bit := some c, msg := if p && c then "" else s!"model={showCSM mm}" }
   | s, _ => throw s!"bad status {s}"
 
+/-- `C15 oapicsv <recs> <csvok> | <status>`: a `file:` CSV body of /compute; unusable files are refused with 400. -/
+def judgeOapiCsv : P Verdict := do
+  let recs ← recordsP
+  let csvOK ← flag
+  expect "|"
+  let st ← tok
+  let model := if csvOK then oapiCsvMatrix recs else none
+  let usable := match model with
+    | some m => decide (m.major ≥ 1)      -- an empty matrix cannot be computed on
+    | none => false
+  let ok := match st.toNat? with
+    | some code => if usable then code == 200 else code == 400
+    | none => false
+  pure { prop := ok, corr := ok, bit := none,
+         msg := if ok then "" else s!"file: CSV body (usable={usable}) answered {st}" }
+
 end EtVerif.Driver
